@@ -41,7 +41,10 @@ const basePrelude = `(set-logic ALL)
 (define-fun nil_slice () Slice (mk_slice nil 0 0 0))
 (define-fun nil_iface () Iface (mk_iface 0 nil))
 (define-fun nil_func () Func (mk_func 0 nil))
-(define-fun-rec root ((a Addr)) Int (ite ((_ is base) a) (bid a) (ite ((_ is fld) a) (root (fpar a)) (root (epar a)))))
+(declare-fun root (Addr) Int)
+(assert (forall ((k Int)) (! (= (root (base k)) k) :pattern ((base k)))))
+(assert (forall ((p Addr) (i Int)) (! (= (root (fld p i)) (root p)) :pattern ((fld p i)))))
+(assert (forall ((p Addr) (i Int)) (! (= (root (elem p i)) (root p)) :pattern ((elem p i)))))
 (declare-fun atype (Addr) Int)
 (declare-fun slen_ (Str) Int)
 (declare-fun sat_ (Str Int) Int)
